@@ -2707,12 +2707,14 @@ class Parameters:
         # assignment by the user, a parameter that follows a reference
         # keeps following it
         triggering = self_._TRIGGER and self_.self is not None
+        assigned = set()
         try:
             with (_syncing(self_.self, kwargs) if triggering else nullcontext()):
                 for (k, v) in kwargs.items():
                     if k not in self_:
                         raise ValueError(f"{k!r} is not a parameter of {self_.cls.__name__}")
                     setattr(self_or_cls, k, v)
+                    assigned.add(k)
         finally:
             # Also on failure: restore the batching state that was in
             # effect, announce the changes already applied and let
@@ -2724,8 +2726,10 @@ class Parameters:
             finally:
                 for tp in trigger_params:
                     p = self_[tp]
-                    p._mode = 'reset'
-                    setattr(self_or_cls, tp, p._autotrigger_reset_value)
+                    if tp in assigned:
+                        # (a rejected or never reached one has nothing to reset)
+                        p._mode = 'reset'
+                        setattr(self_or_cls, tp, p._autotrigger_reset_value)
                     p._mode = 'set-reset'
         return restore
 
